@@ -7,6 +7,7 @@ middleboxes (MessagePipe) that drop / delay / duplicate / truncate / rewrite who
 messages.  The header parser below is the harness's own (independent of Pyro5.protocol).
 """
 import errno
+import heapq
 import random
 import socket as rsock
 import selectors as rsel
@@ -71,7 +72,9 @@ class Net:
         self.s = sched
         self.listeners = {}
         self.next_port = 40000
-        self.next_fd = 100
+        self.next_fd = 100000
+        self.next_sfd = 10
+        self.free_sfd = []
         self.nconn = 0
         self.conns = []              # (client_sock, server_sock)
         self.frng = random.Random(cfg.get("seed", 0))
@@ -88,6 +91,17 @@ class Net:
     def fd(self):
         self.next_fd += 1
         return self.next_fd
+
+    # descriptors of ACCEPTED sockets come from a pool of their own and are handed out lowest-free-first, as a kernel does
+    # within the server process: the number of a closed connection is reused by the next accepted one
+    def server_fd(self):
+        if self.free_sfd:
+            return heapq.heappop(self.free_sfd)
+        self.next_sfd += 1
+        return self.next_sfd
+
+    def release_server_fd(self, fd):
+        heapq.heappush(self.free_sfd, fd)
 
     def port(self):
         self.next_port += 1
@@ -197,6 +211,7 @@ class SimSocket:
         self.net = net
         self.s = net.s
         self._fd = net.fd()
+        self._sfd = False         # _fd was handed out by accept() and goes back to the pool on close
         self.rx = bytearray()
         self.peer = None
         self.out = None           # Pipe towards the peer
@@ -310,6 +325,9 @@ class SimSocket:
         if self.closed:
             raise OSError(errno.EBADF, "Bad file descriptor")
         c = self.backlog.pop(0)
+        if not c._sfd:
+            c._fd = self.net.server_fd()
+            c._sfd = True
         self.s.sev("accept", c.conn)
         return c, c.peeraddr
 
@@ -405,6 +423,7 @@ class SimSocket:
         if self.closed:
             return
         self.closed = True
+        self._release_fd()
         if self.listening:
             self.net.listeners.pop(self.addr, None)
             for c in self.backlog:
@@ -424,6 +443,7 @@ class SimSocket:
         if self.closed:
             return
         self.closed = True
+        self._release_fd()
         self.net.stats["rst"] += 1
         self.s.ev("rst", self.conn, self.side)
         if self.out is not None:
@@ -431,6 +451,11 @@ class SimSocket:
 
     def detach(self):
         return self._fd
+
+    def _release_fd(self):
+        if self._sfd:
+            self._sfd = False
+            self.net.release_server_fd(self._fd)
 
     def __enter__(self):
         return self
@@ -440,26 +465,41 @@ class SimSocket:
 
 
 class SimSelector:
+    """selectors.BaseSelector semantics: keys live in a map by DESCRIPTOR NUMBER; a socket that was closed without being
+    unregistered leaves a stale key behind (never ready), and registering a new socket that got the same number fails"""
+
     def __init__(self, net):
         self.net = net
         self.s = net.s
-        self.map = {}
+        self.map = {}           # fd -> SelectorKey
         self.closed = False
 
     @staticmethod
     def _sock(fo):
         return getattr(fo, "sock", fo)
 
+    def _lookup(self, fileobj):
+        fd = fileobj if isinstance(fileobj, int) else self._sock(fileobj).fileno()
+        if fd < 0:
+            for key in self.map.values():       # closed meanwhile: search by object, as the stdlib does
+                if key.fileobj is fileobj:
+                    return key.fd
+            raise ValueError("Invalid file descriptor: {}".format(fd))
+        return fd
+
     def register(self, fileobj, events, data=None):
-        if id(fileobj) in self.map:
-            raise KeyError("{!r} is already registered".format(fileobj))
-        key = rsel.SelectorKey(fileobj, self._sock(fileobj)._fd, events, data)
-        self.map[id(fileobj)] = key
+        if (not events) or (events & ~(rsel.EVENT_READ | rsel.EVENT_WRITE)):
+            raise ValueError("Invalid events: {!r}".format(events))
+        fd = self._lookup(fileobj)
+        if fd in self.map:
+            raise KeyError("{!r} (FD {}) is already registered".format(fileobj, fd))
+        key = rsel.SelectorKey(fileobj, fd, events, data)
+        self.map[fd] = key
         return key
 
     def unregister(self, fileobj):
         try:
-            return self.map.pop(id(fileobj))
+            return self.map.pop(self._lookup(fileobj))
         except KeyError:
             raise KeyError("{!r} is not registered".format(fileobj)) from None
 
@@ -468,17 +508,21 @@ class SimSelector:
         return self.register(fileobj, events, data)
 
     def get_key(self, fileobj):
-        return self.map[id(fileobj)]
+        try:
+            return self.map[self._lookup(fileobj)]
+        except KeyError:
+            raise KeyError("{!r} is not registered".format(fileobj)) from None
 
     def get_map(self):
-        return {k.fd: k for k in self.map.values()}
+        return dict(self.map)
 
     def close(self):
         self.map = {}
         self.closed = True
 
     def _ready(self):
-        return [k for k in self.map.values() if self._sock(k.fileobj).readable()]
+        # (a closed descriptor silently leaves the kernel's interest set: a stale key is never reported)
+        return [k for k in self.map.values() if not self._sock(k.fileobj).closed and self._sock(k.fileobj).readable()]
 
     def select(self, timeout=None):
         self.s.yield_point("select")
